@@ -875,6 +875,15 @@ INVARIANTS
 CHECK_DEADLOCK FALSE
 """
 
+QUEUELIFE_CFG = """SPECIFICATION TraceSpec
+CONSTANTS
+    Rings <- RingsDef
+INVARIANTS
+    TraceInvariants
+    NotAtEnd
+CHECK_DEADLOCK FALSE
+"""
+
 OPLIFE_MODEL_CFG = """SPECIFICATION Spec
 CONSTANTS
     Ids = {1, 2}
@@ -972,6 +981,34 @@ def engine_suite(tier, seed):
                                            'observed': history, 'trace_file': keep})
         if n == 0:
             res['samples'].append({'model': 'OpLife', 'first_events': [json.loads(l) for l in open(nd).read().splitlines()[:12]]})
+        # The queues of every ring (per-ring projection of SubmitMT / CqSteps).
+        qd = os.path.join(tdir, 'queues.ndjson')
+        try:
+            qstats = oplife_trace.convert_queues(traces, qd)
+        except SystemExit as e:
+            res['errors'].append('queue trace conversion: %s' % e)
+            break
+        qv = run_trace_validation('trace_queuelife_%d' % n, 'Trace_QueueLife', QUEUELIFE_CFG, qd, timeout=1200)
+        qv['traces'] = len(traces)
+        qv['events'] = qstats['events_out']
+        qv['purpose'] = 'real kernel: submission / completion queue positions of %d rings, %d events (%s)' % (qstats['rings'], qstats['events_out'], label)
+        res['tlc'].append(qv)
+        res['replays'].append({'model': 'QueueLife/recorded from the functional test suite on the real kernel', 'variant': label,
+                               'paths': qstats['rings'], 'steps': qstats['events_out'], 'diverged_paths': 0 if qv['accepted'] else 1, 'crashes': 0})
+        if not qv['accepted']:
+            if qv['error']:
+                res['errors'].append('queue trace validation failed to run: %s' % qv['error'])
+            else:
+                lines = open(qd).read().splitlines()
+                k = max(0, min(len(lines) - 1, qv.get('distinct', 1) - 1))
+                ev = json.loads(lines[k]) if lines else {}
+                history = [json.loads(l) for l in lines[:k + 1] if json.loads(l).get('r') == ev.get('r')][-12:]
+                keep = os.path.join(BUILD, 'replay_files', 'suite_queues_%d.ndjson' % n)
+                os.makedirs(os.path.dirname(keep), exist_ok=True)
+                shutil.copy(qd, keep)
+                res['divergences'].append({'tag': 'C04' if ev.get('ev') == 'SqAdd' else 'C05', 'model': 'QueueLife', 'path': n, 'step': k,
+                                           'field': 'event %d %s of the recorded execution is not a step of QueueLife' % (k, ev),
+                                           'expected': 'a behaviour of QueueLife', 'observed': history, 'trace_file': keep})
     res['wall_s'] = round(time.time() - t0, 1)
     res['divergences_total'] = len(res['divergences'])
     if not res['errors']:
